@@ -294,7 +294,11 @@ func genBlob(t *rapid.T, label string, src int) Blob {
 		return Blob{C: h.Content{}}
 	}
 	if rapid.IntRange(0, 2).Draw(t, label+"-periodic") == 0 {
-		return Blob{C: h.Content{{Src: 100 + rapid.SampledFrom([]int{1, 2, 5, 64, 1000}).Draw(t, label+"-period"), Len: n}}}
+		p := rapid.SampledFrom([]int{1, 2, 5, 64, 1000}).Draw(t, label+"-period")
+		if p == 1 && n > 32768 {
+			p = 2 // long runs of one byte value are bsdiff's quadratic worst case (seconds per 64KiB): keep them short
+		}
+		return Blob{C: h.Content{{Src: 100 + p, Len: n}}}
 	}
 	return Blob{C: h.Content{{Src: src, Len: n}}}
 }
